@@ -12,7 +12,7 @@ func init() {
 }
 
 var sqlLeafForms = []int{lfEqStr, lfEqInt, lfGt, lfGe, lfLt, lfLe, lfRangeIncl, lfRangeExcl, lfRangeLo, lfRangeHi, lfRangeStr, lfList,
-	lfWild, lfQuoted, lfRangeExclStr, lfRangeStrLo, lfRangeStrHi, lfRangeAll, lfRangeExclLo, lfRangeExclHi, lfListInt, lfWildMid, lfRegexp, lfFloat, lfRangeFloat, lfRangeFloatEx, lfRegexpShort, lfSpecialFloat, lfRangeComma, lfEqSpecial, lfEqBig, lfRangeBig, lfRangeMixed, lfQuotedDigits, lfRangeWildLo, lfRangeWildHi, lfWildEsc, lfWildEscWild, lfWildUnderscore, lfWildPunct, lfListMixed}
+	lfWild, lfQuoted, lfRangeExclStr, lfRangeStrLo, lfRangeStrHi, lfRangeAll, lfRangeExclLo, lfRangeExclHi, lfListInt, lfWildMid, lfRegexp, lfFloat, lfRangeFloat, lfRangeFloatEx, lfRegexpShort, lfSpecialFloat, lfRangeComma, lfEqSpecial, lfEqBig, lfRangeBig, lfRangeMixed, lfQuotedDigits, lfRangeWildLo, lfRangeWildHi, lfWildEsc, lfWildEscWild, lfWildUnderscore, lfWildPunct, lfListMixed, lfWildEscTail, lfNonASCII3, lfWildRun, lfFloatLong, lfGtFloatLong, lfRangeSpecialLo, lfRangeSpecialHi, lfRegexpBackslash}
 
 var sqlTreeOps = []int{nOr, nAnd, nNot, nMustNot, nMust}
 
@@ -28,7 +28,7 @@ func leafIsInt(lf *leaf) bool {
 // leafEvaluable: forms whose meaning the row evaluator models (no floats, no regexps).
 func leafEvaluable(lf *leaf) bool {
 	switch lf.form {
-	case lfRegexp, lfRegexpShort, lfFloat, lfRangeFloat, lfRangeFloatEx, lfSpecialFloat, lfRangeMixed, lfListMixed:
+	case lfRegexp, lfRegexpShort, lfFloat, lfRangeFloat, lfRangeFloatEx, lfSpecialFloat, lfRangeMixed, lfListMixed, lfRegexpBackslash, lfFloatLong, lfGtFloatLong, lfRangeSpecialLo, lfRangeSpecialHi:
 		return false
 	}
 	return true
@@ -59,7 +59,7 @@ func globMatch(s, pat string) bool {
 // leafMeaning: the truth of the leaf on a row value, as C03 states it.
 func leafMeaning(lf *leaf, x rowVal) bool {
 	switch lf.form {
-	case lfEqStr, lfQuoted, lfEqSpecial, lfQuotedDigits:
+	case lfEqStr, lfQuoted, lfEqSpecial, lfQuotedDigits, lfNonASCII3:
 		return x.s == lf.s1
 	case lfEqBig:
 		return x.i == lf.i1
@@ -101,7 +101,7 @@ func leafMeaning(lf *leaf, x rowVal) bool {
 		return rtOr(x.s == lf.s1, x.s == lf.s2)
 	case lfListInt:
 		return rtOr(x.i == lf.i1, x.i == lf.i2)
-	case lfWild, lfWildMid, lfWildEsc, lfWildEscWild, lfWildUnderscore, lfWildPunct:
+	case lfWild, lfWildMid, lfWildEsc, lfWildEscWild, lfWildUnderscore, lfWildPunct, lfWildEscTail, lfWildRun:
 		return globMatch(x.s, lf.s1)
 	}
 	return false
@@ -220,8 +220,16 @@ func translatePattern(p string) string {
 
 func leafValues(lf *leaf) []qval {
 	switch lf.form {
-	case lfEqStr, lfQuoted, lfRangeStrLo, lfRangeStrHi, lfEqSpecial, lfQuotedDigits:
+	case lfEqStr, lfQuoted, lfRangeStrLo, lfRangeStrHi, lfEqSpecial, lfQuotedDigits, lfNonASCII3:
 		return []qval{{s: lf.s1}}
+	case lfRegexpBackslash:
+		return []qval{{s: lf.s1}}
+	case lfFloatLong, lfGtFloatLong:
+		return []qval{{isFlt: true, f: longDec(lf.d1), fs: lf.d1}}
+	case lfRangeSpecialLo: // a word that spells a non-finite float is a string; the range then compares text
+		return []qval{{s: lf.s1}, {isInt: true, i: lf.i1}}
+	case lfRangeSpecialHi:
+		return []qval{{isInt: true, i: lf.i1}, {s: lf.s1}}
 	case lfEqBig, lfRangeBig:
 		return []qval{{isInt: true, i: lf.i1}}
 	case lfRangeMixed:
@@ -232,7 +240,7 @@ func leafValues(lf *leaf) []qval {
 		return []qval{{isInt: true, i: lf.i1}, {isInt: true, i: lf.i2}}
 	case lfRangeStr, lfRangeExclStr, lfList, lfRangeComma, lfRangeWildLo, lfRangeWildHi: // a wildcard character in a range bound is a character
 		return []qval{{s: lf.s1}, {s: lf.s2}}
-	case lfWild, lfWildMid, lfWildEsc, lfWildEscWild, lfWildUnderscore, lfWildPunct:
+	case lfWild, lfWildMid, lfWildEsc, lfWildEscWild, lfWildUnderscore, lfWildPunct, lfWildEscTail, lfWildRun:
 		return []qval{{s: translatePattern(lf.s1)}}
 	case lfListMixed:
 		return []qval{{isInt: true, i: lf.i1}, {isFlt: true, f: 2.5, fs: "2.5"}}
@@ -248,6 +256,16 @@ func leafValues(lf *leaf) []qval {
 		return []qval{{isFlt: true, f: 0.001, fs: "0.001"}, {isFlt: true, f: 0.002, fs: "0.002"}}
 	}
 	return nil
+}
+
+func longDec(d string) float64 {
+	switch d {
+	case "0.123456789":
+		return 0.123456789
+	case "123456.789":
+		return 123456.789
+	}
+	return 100000.001
 }
 
 func treeValues(t *node) []qval {
@@ -351,10 +369,14 @@ func sqlChecks(t *node, text string, withRows bool) {
 	}
 	sql, err := lucene.ToPostgres(text)
 	inFragment := true
+	mixedBounds := false // a range with a number and a string bound: only the confinement clauses (C02) apply
 	for _, n := range collect(t, nLeaf, nil) {
 		switch n.lf.form {
-		case lfRegexp, lfRegexpShort, lfSpecialFloat:
+		case lfRegexp, lfRegexpShort, lfSpecialFloat, lfRegexpBackslash:
 			inFragment = false
+		case lfRangeSpecialLo, lfRangeSpecialHi:
+			inFragment = false
+			mixedBounds = true
 		}
 	}
 	if inFragment {
@@ -436,7 +458,7 @@ func sqlChecks(t *node, text string, withRows bool) {
 			}
 		}
 		rtAssert("param-values-in-order", same)
-		if sub, sok := substitute(psql, params); sok {
+		if sub, sok := substitute(psql, params); sok && !mixedBounds {
 			// compared as SQL trees, not as text: formatting of the inline SQL is free
 			sast, _, sok2 := pgParse(sub)
 			if ok && sok2 {
